@@ -179,6 +179,29 @@ Theorem C19_qubit_weight_of_the_trap :
 Proof. exact qubit_weight_single. Qed.
 Print Assumptions C19_qubit_weight_of_the_trap.
 
+(** registers, maps and layouts agree: a qubit sitting on trap [i] (where
+    [define_register] puts it, by C19_define_register_places_qubits_on_traps)
+    gets from [layout.define_detuning_map] the weight given to trap [i], and
+    nothing if none was given - provided no two traps coincide after rounding
+    and distinct traps are further apart than the matching tolerance *)
+Theorem C19_layout_map_register_agree :
+  forall (N : Type) (nlt neq : N -> N -> bool) (nrnd : N -> N) (nclose : N -> N -> bool)
+         (W : Type) (w0 : W) (wadd : W -> W -> W) (wok : W -> bool),
+  scalar_ok N nlt neq nrnd ->
+  forall (l : list (coord N)) (L : layout N) (kws : list (Z * W)) (m : wmap N W) (i : Z) (c : coord N),
+  traps_new N nlt neq nrnd l = Ok L ->
+  NoDup (map (crnd N nrnd) l) ->
+  (forall a b : coord N,
+     In a (lsorted L) -> In b (lsorted L) -> cclose N nclose a b = true -> a = b) ->
+  (forall a : coord N, In a (lsorted L) -> cclose N nclose a a = true) ->
+  layout_detuning_map N nlt neq nrnd W wok L kws = Ok m ->
+  NoDup (map fst kws) ->
+  znth (lsorted L) i = Some c ->
+  qubit_weight N nclose W w0 wadd m c =
+  wsum W w0 wadd (match zassoc i kws with Some w => [w] | None => [] end).
+Proof. exact layout_map_register_agree. Qed.
+Print Assumptions C19_layout_map_register_agree.
+
 (** the hypotheses are satisfiable: exact coordinates on any decimal
     sub-grid, rounded half-to-even to the nearest micro-unit *)
 Theorem C19_exact_grid_satisfies_hypotheses :
